@@ -48,9 +48,9 @@ def scanBlockBody : Bytes → Option (Bytes × Bytes)
   | [] => none
 
 /-- `^\/\/(.*)`: everything up to (not including) the next line feed. -/
-def scanLine (s : Bytes) : Bytes × Bytes := s.span (· != 10)
+def scanLine (s : Bytes) : Bytes × Bytes := (s.takeWhile (· != 10), s.dropWhile (· != 10))
 
-def spanDigits (s : Bytes) : Bytes × Bytes := s.span isDigitB
+def spanDigits (s : Bytes) : Bytes × Bytes := (s.takeWhile isDigitB, s.dropWhile isDigitB)
 
 /-- `^\d+(\.\d+)?` (the optional sign is handled by the caller). -/
 def scanNumber (s : Bytes) : Option (Bytes × Bytes) :=
@@ -62,7 +62,7 @@ def scanNumber (s : Bytes) : Option (Bytes × Bytes) :=
       if fs.isEmpty then some (ds, rest) else some (ds ++ 46 :: fs, rest'')
   | _ => some (ds, rest)
 
-def scanIdent (s : Bytes) : Bytes × Bytes := s.span isIdentB
+def scanIdent (s : Bytes) : Bytes × Bytes := (s.takeWhile isIdentB, s.dropWhile isIdentB)
 
 /-- `^(true|false)\b` -/
 def scanBool (s : Bytes) : Option (Bytes × Bytes) :=
@@ -73,20 +73,20 @@ def scanBool (s : Bytes) : Option (Bytes × Bytes) :=
         | b :: _ => if isIdentB b then none else some (w, rest)
         | [] => some (w, rest)
     | none => none
-  match try_ (strBytes "true") with
+  match try_ [116, 114, 117, 101] with            -- "true"
   | some r => some r
-  | none => try_ (strBytes "false")
+  | none => try_ [102, 97, 108, 115, 101]         -- "false"
 
 /-- First entry of the ordered punctuation table that is a prefix of the input. -/
-def scanPunct : List (String × Nat) → Bytes → Option (Nat × Bytes × Bytes)
+def scanPunct : List (Bytes × Nat) → Bytes → Option (Nat × Bytes × Bytes)
   | [], _ => none
   | (k, ty) :: tbl, s =>
-      match stripPrefix? (strBytes k) s with
-      | some rest => some (ty, strBytes k, rest)
+      match stripPrefix? k s with
+      | some rest => some (ty, k, rest)
       | none => scanPunct tbl s
 
-def lookupKeyword (tbl : List (String × Nat)) (w : Bytes) : Option Nat :=
-  (tbl.find? fun (k, _) => strBytes k == w).map (·.2)
+def lookupKeyword (tbl : List (Bytes × Nat)) (w : Bytes) : Option Nat :=
+  (tbl.find? fun (k, _) => k == w).map (·.2)
 
 /-! ### string literals -/
 
@@ -196,9 +196,9 @@ def step (last : Nat) (s : Bytes) : Step :=
     | none =>
     if isAlphaB c0 then
       let (w, rest) := scanIdent s
-      .tok ((lookupKeyword keywords w).getD TT_IDENTIFIER) w rest
+      .tok ((lookupKeyword keywordsB w).getD TT_IDENTIFIER) w rest
     else
-      match scanPunct punct s with
+      match scanPunct punctB s with
       | some (ty, v, rest) => .tok ty v rest
       | none => .err
 
